@@ -61,7 +61,7 @@ func deferredReleaseArg(d *ssa.Defer, wrappers map[*ssa.Function]int) ssa.Value 
 func poolWrappers(c *core.Ctx) map[*ssa.Function]int {
 	out := map[*ssa.Function]int{}
 	for _, fn := range c.P.RepoFuncs("") {
-		if len(fn.Blocks) != 1 {
+		if len(fn.Blocks) == 0 || len(fn.Blocks) > 4 {
 			continue
 		}
 		ssax.Instrs(fn, func(ins ssa.Instruction) {
@@ -69,7 +69,14 @@ func poolWrappers(c *core.Ctx) map[*ssa.Function]int {
 			if !ok || ssax.CalleeName(&call.Call) != "(*sync.Pool).Put" {
 				return
 			}
-			if p, ok := ssax.Unwrap(call.Call.Args[1]).(*ssa.Parameter); ok {
+			arg := ssax.Unwrap(call.Call.Args[1])
+			if len(fn.Blocks) > 1 {
+				// a small guarded wrapper (if cap(b) > 0 { pool.Put(b[:0]) }): the parameter's storage is what goes back
+				if sl, ok := arg.(*ssa.Slice); ok {
+					arg = ssax.Unwrap(sl.X)
+				}
+			}
+			if p, ok := arg.(*ssa.Parameter); ok {
 				out[fn] = paramIndex(p)
 			}
 		})
@@ -545,6 +552,8 @@ func runC14(c *core.Ctx) {
 	runR147(c, "R14.7", wrappers, "")
 	c.Rule("R14.13", "nothing nil goes into a shared pool: a (deferred) release of the first result of a call that can return (nil, err) happens only where that call succeeded", 3)
 	checkNoNilIntoPool(c, "R14.13", wrappers)
+	c.Rule("R14.14", "memory handed to another goroutine over a channel is not put into an object pool afterwards by the sender", 10)
+	checkNoReleaseAfterHandOff(c, "R14.14", wrappers)
 
 	// R14.2
 	runAtomicConsistency(c, "R14.2", nil, initOnly)
